@@ -121,9 +121,80 @@ def main():
             w.flush()
             if out.getvalue() != b"".join(pkt_line(x) for x in pls):
                 fail("BufferedPktLineWriter", {"bufsize": bufsize})
+    # (e) capability lists, ref advertisements, want lines, command packets (contents without NUL / LF)
+    from dulwich.protocol import (capability_symref, extract_capabilities, extract_want_line_capabilities,
+                                  format_capability_line, format_cmd_pkt, format_ref_line, parse_capability, parse_cmd_pkt,
+                                  symref_capabilities)
+    from dulwich.client import _extract_symrefs_and_agent, read_pkt_refs_v1
+    cap_atoms = [b"x", b"multi_ack", b"a=b", b"a=b=c", b"agent=git/2.39.0", b"symref=HEAD:refs/heads/m", b"k=", b"=v", b"\xff\x01", b"a:b",
+                 b"object-format=sha1", b"side-band-64k", b"~^{}"]
+    cap_lists = [[]] + [[a] for a in cap_atoms] + [list(t) for t in itertools.permutations(cap_atoms[:6], 2)] \
+        + [list(t) for t in itertools.permutations(cap_atoms[5:10], 3)] + [[b"x", b"x"], cap_atoms]
+    refnames = [b"HEAD", b"refs/heads/m", b"refs/tags/v1^{}", b"capabilities^{}", b"refs/heads/a=b", b"refs/heads/\xc3\xa9", b"r"]
+    shas = [b"0" * 40, b"1234567890abcdef" * 2 + b"12345678", b"ab" * 32]
+    for caps in cap_lists:
+        cases += 1
+        if format_capability_line(caps) != b"".join(b" " + c for c in caps):
+            fail("format_capability_line", {"caps": [c.hex() for c in caps]})
+        for ref in refnames:
+            for sha in shas:
+                for nl in (True, False):
+                    cases += 1
+                    line = format_ref_line(ref, sha, caps)
+                    if not (line.endswith(b"\n") and line.count(b"\n") == 1 and line.count(b"\0") == 1):
+                        fail("format_ref_line shape", {"line": line.hex()})
+                    wire = line if nl else line[:-1]
+                    body = wire.rstrip(b"\n").split(None, 1)[1]
+                    got = extract_capabilities(body)
+                    if got != (ref, caps):
+                        fail("capability list round trip (format_ref_line -> extract_capabilities)",
+                             {"ref": ref.hex(), "caps": [c.hex() for c in caps], "got": repr(got)})
+                    refs_got, caps_got = read_pkt_refs_v1([wire])
+                    exp_refs = {} if (ref == b"capabilities^{}" and sha == b"0" * 40) else {ref: sha}
+                    if refs_got != exp_refs or caps_got != set(caps):
+                        fail("ref advertisement round trip (read_pkt_refs_v1)", {"ref": ref.hex(), "caps": [c.hex() for c in caps], "got": repr((refs_got, caps_got))})
+        # a later line without capabilities, and a peeled line
+        cases += 1
+        adv = [format_ref_line(b"HEAD", shas[1], caps), format_ref_line(b"refs/tags/t", shas[2]), format_ref_line(b"refs/tags/t^{}", shas[1])]
+        refs_got, caps_got = read_pkt_refs_v1(adv)
+        if refs_got != {b"HEAD": shas[1], b"refs/tags/t": shas[2], b"refs/tags/t^{}": shas[1]} or caps_got != set(caps):
+            fail("multi-line ref advertisement", {"caps": [c.hex() for c in caps], "got": repr((refs_got, caps_got))})
+        # want line: capabilities follow the object id separated by spaces
+        for nl in (b"\n", b""):
+            cases += 1
+            want = b"want " + shas[1] + b"".join(b" " + c for c in caps) + nl
+            got = extract_want_line_capabilities(want)
+            exp = (b"want " + shas[1], caps) if caps else (want, [])
+            if got != exp:
+                fail("want line round trip", {"line": want.hex(), "got": repr(got)})
+    for ref in refnames:
+        cases += 1
+        if format_ref_line(ref, shas[1]) != shas[1] + b" " + ref + b"\n" or extract_capabilities(ref) != (ref, []):
+            fail("ref line without capabilities", {"ref": ref.hex()})
+    for cap in cap_atoms:
+        cases += 1
+        k, v = parse_capability(cap)
+        if (v is None and (b"=" in cap or k != cap)) or (v is not None and (k + b"=" + v != cap or b"=" in k)):
+            fail("parse_capability", {"cap": cap.hex(), "got": repr((k, v))})
+    sym_sets = [[], [(b"HEAD", b"refs/heads/m")], [(b"HEAD", b"refs/heads/a:b"), (b"refs/remotes/o/HEAD", b"refs/remotes/o/m")], [(b"HEAD", b"refs/heads/a=b")]]
+    for syms in sym_sets:
+        for agent in (None, b"git/2.39", b"a=b"):
+            cases += 1
+            caps = [b"x"] + symref_capabilities(syms) + ([b"agent=" + agent] if agent is not None else [])
+            got = _extract_symrefs_and_agent(extract_capabilities(format_ref_line(b"HEAD", shas[1], caps)[41:-1])[1])
+            if got != (dict(syms), agent) or any(capability_symref(a, b) != b"symref=" + a + b":" + b for a, b in syms):
+                fail("symref / agent capabilities round trip", {"symrefs": repr(syms), "agent": repr(agent), "got": repr(got)})
+    for cmd in (b"git-upload-pack", b"git-receive-pack", b"c"):
+        for args in ([b"/p"], [b"/p", b"host=h"], [b"/p with space", b"host=h", b"", b"version=2"], [b""], [b" ", b"="]):
+            cases += 1
+            got = parse_cmd_pkt(format_cmd_pkt(cmd, *args))
+            if got != (cmd, args):
+                fail("command packet round trip", {"cmd": cmd.hex(), "args": [a.hex() for a in args], "got": repr(got)})
     print(json.dumps({"name": "c19_roundtrip", "function": "dulwich/protocol.py framing classes", "cases": cases, "exhaustive": True,
                       "bound": f"side-band sizes {sizes} x 3 channels; all partitions of 5 encoded streams (<= 18 bytes); "
-                               "all chunkings of a 10-byte wire x all 3-step schedules over read(1,2,3)/recv(1,2,4); 8 buffered-writer cases",
+                               "all chunkings of a 10-byte wire x all 3-step schedules over read(1,2,3)/recv(1,2,4); 8 buffered-writer cases; "
+                               "capability lists (empty, 13 singletons, 30 pairs, 60 triples, duplicates, all 13) x 7 ref names x 3 ids x with/without LF through "
+                               "format_ref_line -> extract_capabilities / read_pkt_refs_v1, want lines, symref/agent capabilities, command packets",
                       "failures": failures, "secs": round(time.time() - t0, 2)}))
 
 
